@@ -264,8 +264,52 @@ def r06c(ctx, rep, cr):
     rep.floor('R06c', 'sparse values handed to the store', n, 2)
 
 
+DENSE_SCORER = re.compile(r'VectorEngine::(cosine_similarity|compute_score|dot_product|euclidean_distance|manhattan_distance)$|simd::\w+$')
+
+
+def r06d(ctx, rep, cr):
+    rep.rule('R06d', 'a stored vector is scored only if it has the query\'s length: every call from a VectorEngine search body to a dense '
+                     'scorer (cosine_similarity, compute_score, dot_product, euclidean_distance, simd::*) is reachable only through the '
+                     'equal edge of a comparison of two len() values — the SIMD kernels truncate to the shorter operand, so a vector of '
+                     'another dimension gets a meaningless score and can displace a true neighbour. The scorers themselves and the '
+                     'sparse re-ranking of HNSW candidates (own dimension handling) are outside the rule')
+    n = 0
+    for name, f in sorted(cr.fns.items()):
+        if not name.startswith(VE):
+            continue
+        if DENSE_SCORER.search(A.parent_fn(name)) or A.parent_fn(name).endswith('::magnitude'):
+            continue
+        defs = None
+        for k, c in enumerate(c_ for c_ in A.calls(f) if DENSE_SCORER.search(c_.resolved)):
+            defs = defs or A.Defs(f)
+            n += 1
+            rep.analysed(f)
+            ok = False
+            for (a, s_) in A.must_pass_edges(f, c.bb):
+                l = lib.switch_local(f, a)
+                d = A.single_def(defs, l) if l is not None else None
+                if not d or d[2] != 'st' or d[3][1][0] != 'bin' or d[3][1][1] not in ('Eq', 'Ne'):
+                    continue
+                t = f.bbs[a]['t']
+                if not all(v == '0' for v, _ in t[2]):
+                    continue
+                x, y = lib.val_sig(f, defs, d[3][1][2]), lib.val_sig(f, defs, d[3][1][3])
+                equal_edge = (s_ == t[3]) == (d[3][1][1] == 'Eq')
+                if x[0] == 'len' and y[0] == 'len' and x != y and equal_edge:
+                    ok = True
+            if ok:
+                rep.holds('R06d', f, 'score#%d' % k, 'behind len == len')
+            else:
+                rep.violation('R06d', f, 'unchecked-dimension', f.loc(c.line),
+                              '%s is called on a stored vector on a path that has not compared its length with the query\'s: a vector '
+                              'of another dimension (stored before the collection got a fixed dimension, or loaded from an index file) is '
+                              'scored on a truncated prefix and can rank first' % lib.short(c.resolved))
+    rep.floor('R06d', 'dense scoring calls in search bodies', n, 6)
+
+
 def run(ctx, rep):
     cr = ctx.crate('vector_engine')
     r06a(ctx, rep, cr)
     r06b(ctx, rep, cr)
     r06c(ctx, rep, cr)
+    r06d(ctx, rep, cr)
